@@ -177,7 +177,21 @@ def worker_loop(ctx, A, W, RULE, drain_liveness=False):
     next_sites = [(f, bb) for f, bb, m in all_drains if m == "iter_next"]
     # one loop iteration = a path from the dequeue back to it (or to the thread's end), walked path-sensitively: a status
     # routed through a local enum, a `match` split in two, `recv().unwrap()` all give the same events
-    paths = ipaths(F, W, stop=lambda n: F.fns[n].kind != "Closure" if n in F.fns else True, depth=2, start=R, ends=ends, model_unwrap=True)
+    # inlined: closures, and the executor's own non-status helpers (a dispatcher `execute(command, ..) -> NextStep`, a
+    # `shut_down(receiver, ack)` helper); opaque: handlers (status-returning functions), other components, completions
+    wtype = (F.fn(spawn[W.name]).rec.get("self_ty") or "").split("<")[0] if F.fn(spawn.get(W.name, "")) is not None else ""
+
+    def wstop(n):
+        g_ = F.fns.get(n)
+        if g_ is None:
+            return True
+        if g_.kind == "Closure":
+            return False
+        if n in A.done_fns or g_.rec.get("ret", "").endswith("CommandStatus"):
+            return True
+        return not (wtype and (g_.rec.get("self_ty") or "").split("<")[0] == wtype)
+    paths = ipaths(F, W, stop=wstop, depth=3, start=R, ends=ends, model_unwrap=True)
+    drain_keys = {(f_.name, bb_) for f_, bb_, m_ in all_drains}
     ctx.analysed["paths"] += len(paths)
     cmd_variants = set()
     bad = []
@@ -203,7 +217,7 @@ def worker_loop(ctx, A, W, RULE, drain_liveness=False):
         # accessors) made by the loop itself are not command applications
         local_calls = [e for e in p.events if not e.log and e.t["res"] == "item" and e.t.get("rlocal") and e.callee not in A.done_fns and e.callee not in drain_helpers
                        and (is_effectful(site_effects(F, e.fn, e.bb)) or any(mentions(a, lambda s_: s_[0] == "variant" and strip_site(s_[1]) == cmd_e) for a in e.args))]
-        drains = [e for e in p.events if e.fn is W and e.bb in drain_sites]
+        drains = [e for e in p.events if (e.fn is W and e.bb in drain_sites) or (e.fn.name, e.bb) in drain_keys]
         own = [e for e in dones if same_value(strip_ack(e.args[0]), ("field", pair, "acknowledgement"))]
         if drains:
             # shutdown arm: own ack completed once with Accepted, before draining; every drained pair gets ShuttingDown
@@ -314,6 +328,29 @@ def worker_loop(ctx, A, W, RULE, drain_liveness=False):
                   "sends=%s spawns=%s" % (sorted(sends), spawns))
 
     return handlers
+
+
+def worker_paths(ctx, A, W):
+    """one loop iteration of the worker as path-sensitive paths (executor-type dispatch helpers and closures inlined;
+    handlers, completions and other components opaque) - the same view the worker-loop rule uses"""
+    F = ctx.facts
+    spawn = F.spawn_closures()
+    recv_blocks = [bb for f, bb, t, m in A.recv_sites if m == "recv" and f is W]
+    if len(recv_blocks) != 1:
+        return []
+    R = recv_blocks[0]
+    wtype = (F.fn(spawn[W.name]).rec.get("self_ty") or "").split("<")[0] if F.fn(spawn.get(W.name, "")) is not None else ""
+
+    def wstop(n):
+        g_ = F.fns.get(n)
+        if g_ is None:
+            return True
+        if g_.kind == "Closure":
+            return False
+        if n in A.done_fns or g_.rec.get("ret", "").endswith("CommandStatus"):
+            return True
+        return not (wtype and (g_.rec.get("self_ty") or "").split("<")[0] == wtype)
+    return ipaths(F, W, stop=wstop, depth=3, start=R, ends=set(W.return_blocks()) | {R}, model_unwrap=True)
 
 
 def strip_ack(e):
